@@ -251,6 +251,7 @@ static bool runC01(Rng& r, const C01Case& c, const std::vector<size_t>& chunks, 
   w.chunks = chunks;
   w.start(&r);
   w.bus.burst = burst;
+  if (burst > 1 && !c.cfg.enhanced) w.bus.gluePct = r.pick(std::vector<int>{0, 30, 100});   // a SYN may arrive together with the symbols that follow it
   w.bus.autoSyn = !c.cfg.generateSyn;   // after the script the sync generator keeps the bus alive for a few more SYNs (unless the host generates them)
   w.bus.autoSynBudget = 6;
   for (auto& it : c.items) w.bus.script.push_back(it);
@@ -353,6 +354,7 @@ struct ActiveCase {
   std::vector<AnswerDef> earlierAnswers;     // registered first under keys that `answers` registers again (the later registration counts)
   std::string desc;
   bool respBurst = false; // the addressed participant's acknowledge + response arrive in one piece
+  int synGlue = 0;        // percent of the SYNs that reach the host in one read together with the start of a following foreign telegram
   int burst = 1;          // foreign traffic reaches the host in arrival bursts of up to that many bytes
   int busSynMode = 0;     // 0: the bus has its own SYN generator, 1: it has none (the host must generate), 2: it fails after the script
 };
@@ -400,6 +402,7 @@ static bool runActive(Rng& r, const ActiveCase& c, const std::string& tag, const
   w.bus.echoCorruptAt = c.echoCorruptAt;
   w.bus.respBurst = c.respBurst;
   w.bus.burst = c.burst;
+  w.bus.gluePct = c.synGlue;
   for (auto& p : c.peers) w.bus.peers.push_back(p);
   Item s; s.kind = Item::SYN;
   for (int i = 0; i < 4; i++) w.bus.script.push_back(s);
@@ -442,6 +445,7 @@ static bool runActive(Rng& r, const ActiveCase& c, const std::string& tag, const
   }
   st.n["steps"] += w.steps;
   st.n["bus_bytes"] += (long long)w.bus.log.size();
+  st.n["syn_glued_with_following_symbols"] += w.bus.glued;
   for (auto& sb : subs) w.handler->takeFinished(sb.req);
   MonConfig mc{c.cfg.own, c.cfg.readOnly, c.cfg.generateSyn, c.cfg.enhanced, c.cfg.answer, c.answers};
   std::vector<ReqInfo> reqs;
@@ -534,6 +538,7 @@ static void modeActive(long ncases, const std::string& which) {
     c.respBurst = r.chance(1, 3);
     c.burst = which == "c03" && r.chance(1, 3) ? r.pick(std::vector<int>{2, 3, 5}) : 1;
     bool hostileTraffic = which == "c03";
+    c.synGlue = !c.cfg.enhanced && r.chance(1, 3) ? r.pick(std::vector<int>{20, 50, 100}) : 0;
     int nreq = r.range(1, 3);
     int64_t at = (int64_t)r.range(150, 400) * MS;
     for (int k = 0; k < nreq; k++) {
@@ -564,6 +569,18 @@ static void modeActive(long ncases, const std::string& which) {
       }
       s.gap = 0;
     }
+    if (c.synGlue && !hostileTraffic) {
+      // somebody else uses the bus as well: telegrams of another master queue up behind the host's exchanges and start right after a SYN
+      Item gp; gp.kind = Item::GAP; gp.gap = c.requests[0].first > 60 * MS ? c.requests[0].first - (int64_t)r.range(10, 60) * MS : 10 * MS;
+      c.items.push_back(gp);
+      for (int k = r.range(2, 6); k > 0; k--) {
+        uint8_t q = MASTERS[r.below(25)];
+        if (q == c.cfg.own) q = (uint8_t)(c.cfg.own == 0x10 ? 0x30 : 0x10);
+        s.gap = 0;
+        c.items.push_back(s);
+        c.items.push_back(foreignTelegram(r, q, c.cfg));
+      }
+    }
     // stray symbols between SYNs while requests wait for their arbitration slot (a lone escape symbol leaves state behind)
     if (r.chance(1, 3)) {
       std::vector<Item> pre;
@@ -576,7 +593,7 @@ static void modeActive(long ncases, const std::string& which) {
       // spread over the time in which the requests are submitted
       if (!c.requests.empty() && r.chance(1, 2)) { Item gp; gp.kind = Item::GAP; gp.gap = c.requests[0].first > 200 * MS ? c.requests[0].first - 150 * MS : 50 * MS; c.items.insert(c.items.begin(), gp); }
     }
-    c.desc = which + " burst=" + std::to_string(c.burst) + " respburst=" + std::to_string(c.respBurst) + " bussyn=" + std::to_string(c.busSynMode) + " nreq=" + std::to_string(nreq) + " foreign=" + std::to_string(c.items.size()) + " echoCorruptAt=" + std::to_string(c.echoCorruptAt);
+    c.desc = which + " glue=" + std::to_string(c.synGlue) + " burst=" + std::to_string(c.burst) + " respburst=" + std::to_string(c.respBurst) + " bussyn=" + std::to_string(c.busSynMode) + " nreq=" + std::to_string(nreq) + " foreign=" + std::to_string(c.items.size()) + " echoCorruptAt=" + std::to_string(c.echoCorruptAt);
     current(which + " case " + std::to_string(ci));
     st.n["evaluations"]++;
     ActiveResult res;
@@ -597,6 +614,7 @@ static void modeC15(long ncases) {
     c.cfg.own = MASTERS[r.below(25)];
     c.cfg.enhanced = r.chance(1, 2);
     c.cfg.answer = true;
+    c.synGlue = !c.cfg.enhanced && r.chance(1, 3) ? r.pick(std::vector<int>{30, 100}) : 0;     // SYN and the start of the telegram in one read
     c.cfg.lockCount = r.pick(std::vector<unsigned>{0, 3});
     uint8_t ownSlave = (uint8_t)(c.cfg.own + 5);
     // registered answers
